@@ -15,6 +15,7 @@ import (
 	"path/filepath"
 	"runtime/debug"
 	"strings"
+	"time"
 
 	"verifchecker/internal/engine"
 	"verifchecker/internal/report"
@@ -85,6 +86,7 @@ func run(prop, tier, repo, verif, tags, replayKey string, evidence bool, f rules
 			code = 2
 		}
 	}()
+	t0 := time.Now()
 	cfg := engine.Config{Dir: repo}
 	if tags != "" {
 		cfg.Tags = strings.Split(tags, ",")
@@ -99,6 +101,7 @@ func run(prop, tier, repo, verif, tags, replayKey string, evidence bool, f rules
 		return 2
 	}
 	r := report.NewRun(prop, tier)
+	r.SetStart(t0)
 	r.Stats["packages"] = len(p.Pkgs)
 	r.Stats["functions"] = len(p.Funcs)
 	f(&rules.Ctx{P: p, R: r, Tier: tier, VerifDir: verif})
